@@ -292,6 +292,7 @@ struct OffsetEval {
   double tol = 0;
   ld B = 0, chord = 0, Dmax = 0;
   int segUsed = 0;
+  bool collapse = false;
 };
 
 struct InputInfo {
@@ -331,6 +332,38 @@ InputInfo analyseInput(const Polygons& P) {
   return in;
 }
 
+// "Collapse regime": some input edge is entirely consumed by the concave joins
+// at its two ends (a concave join with turn angle t consumes |delta|*tan(t/2)
+// of each adjacent edge). Outside this regime every translated edge keeps a
+// piece of positive length; inside it the raw offset ring re-connects across
+// vanished edges (hole closing up, part thinner than 2|delta| vanishing, notch
+// filling in). Witnesses found in this regime are keyed coarsely
+// ("offset:concave-join-collapse:...") because they share one root cause.
+bool edgeConsumed(const InputInfo& in, double delta) {
+  const ld ad = fabsl((ld)delta);
+  const int sgn = delta >= 0 ? 1 : -1;
+  for (const auto& r : in.polys) {
+    const size_t n = r.size();
+    std::vector<ld> cons(n, 0);
+    for (size_t i = 0; i < n; i++) {
+      const vec2 Pp = r[(i + n - 1) % n], V = r[i], N = r[(i + 1) % n];
+      const ld e1x = (ld)V.x - Pp.x, e1y = (ld)V.y - Pp.y, e2x = (ld)N.x - V.x, e2y = (ld)N.y - V.y;
+      const ld l1 = hypotl(e1x, e1y), l2 = hypotl(e2x, e2y);
+      if (l1 == 0 || l2 == 0) continue;
+      const int o = g2::orient(Pp, V, N);
+      if (o * sgn >= 0) continue;  // convex join or straight
+      const ld cr = fabsl(e1x * e2y - e1y * e2x), dt = e1x * e2x + e1y * e2y;
+      const ld den = l1 * l2 + dt;
+      cons[i] = den > 0 ? ad * cr / den : std::numeric_limits<ld>::infinity();
+    }
+    for (size_t i = 0; i < n; i++) {
+      const ld len = g2::distPt(r[i], r[(i + 1) % n]);
+      if (cons[i] + cons[(i + 1) % n] >= len * (1 - 1e-6L)) return true;
+    }
+  }
+  return false;
+}
+
 double effLimit(double ml) { return std::isfinite(ml) && ml >= 2.0 ? ml : 2.0; }
 
 OffsetEval evalOffset(vh::Ctx& c, const CrossSection& cs, const InputInfo& in, const OffsetParams& q) {
@@ -352,6 +385,7 @@ OffsetEval evalOffset(vh::Ctx& c, const CrossSection& cs, const InputInfo& in, c
   double E = g2::epsFromScale(S);
   if (std::isfinite(o.tol) && o.tol > E) E = o.tol;
   o.B = 4 * (ld)E + 64 * (ld)DBL_EPSILON * S + 2 * ad * in.straightTurn1mCos;
+  o.collapse = edgeConsumed(in, q.delta);
   return o;
 }
 
@@ -388,7 +422,7 @@ Cls classify(const InputInfo& in, vec2 p, ld B, ld ad) {
 
 std::string paramsJson(const OffsetParams& q, const OffsetEval& o) {
   return vh::J().d("delta", q.delta).s("join", jtName(q.jt)).d("miter_limit", q.miterLimit).i("circularSegments", q.segments)
-      .i("segments_used", o.segUsed).d("chordal_band", (double)o.chord).d("band", (double)o.B).d("Dmax", (double)o.Dmax).d("result_tolerance", o.tol).str();
+      .i("segments_used", o.segUsed).bo("collapse_regime", o.collapse).d("chordal_band", (double)o.chord).d("band", (double)o.B).d("Dmax", (double)o.Dmax).d("result_tolerance", o.tol).str();
 }
 
 std::vector<vec2> offsetSamples(vh::Ctx& c, const InputInfo& in, const OffsetEval& o, const OffsetParams& q) {
@@ -490,7 +524,13 @@ bool checkOffset(vh::Ctx& c, const InputInfo& in, const OffsetParams& q, const O
   }
   const ld ad = fabsl((ld)q.delta), B = o.B, ch = o.chord;
   const bool round = q.jt == JoinType::Round;
-  for (const vec2& p : pts) {
+  c.count(o.collapse ? "offsets_in_collapse_regime" : "offsets_outside_collapse_regime");
+  // bound the oracle's work: at most ~6e6 point-edge evaluations per offset
+  const size_t budget = std::max<size_t>(120, (size_t)(6e6 / (double)(in.segs.size() + o.segs.size() + 1)));
+  const size_t stride = pts.size() > budget ? (pts.size() + budget - 1) / budget : 1;
+  size_t pi = c.rng.below(stride);
+  for (; pi < pts.size(); pi += stride) {
+    const vec2& p = pts[pi];
     if (!std::isfinite(p.x) || !std::isfinite(p.y)) continue;
     if (g2::distToSegs(p, o.segs) <= B) {
       c.count("points_skipped_in_band");
@@ -531,6 +571,7 @@ bool checkOffset(vh::Ctx& c, const InputInfo& in, const OffsetParams& q, const O
       vh::J j;
       j.raw("point", g2::ptJson(p)).bo("in_result", inL).d("signed_dist_lo", (double)k.lo).d("signed_dist_hi", (double)k.hi)
           .bo("in_outward_edge_rect", k.rectOut).bo("in_inward_edge_rect", k.rectIn).d("dist_to_result_edges", (double)g2::distToSegs(p, o.segs));
+      if (o.collapse) return fail(std::string("offset:concave-join-collapse:") + (q.delta >= 0 ? "delta>0" : "delta<0"), j.s("clause", why));
       return fail(std::string("offset:") + why + ":" + tag, j);
     }
     if (any) {
@@ -547,13 +588,16 @@ bool checkMonotone(vh::Ctx& c, const InputInfo& in, const OffsetParams& q1, cons
   // q1.delta < q2.delta: nothing of Offset(d1) may lie outside Offset(d2)
   ld B = std::max(o1.B, o2.B) + o1.chord + o2.chord;
   long n = 0;
-  for (const vec2& p : pts) {
+  const size_t budget = std::max<size_t>(120, (size_t)(6e6 / (double)(o1.segs.size() + o2.segs.size() + 1)));
+  const size_t stride = pts.size() > budget ? (pts.size() + budget - 1) / budget : 1;
+  for (size_t pi = c.rng.below(stride); pi < pts.size(); pi += stride) {
+    const vec2& p = pts[pi];
     if (!std::isfinite(p.x) || !std::isfinite(p.y)) continue;
     if (g2::distToSegs(p, o1.segs) <= B || g2::distToSegs(p, o2.segs) <= B) continue;
     const int w1 = g2::windingSegs(o1.segs, p), w2 = g2::windingSegs(o2.segs, p);
     n++;
     if (w1 == 1 && w2 == 0) {
-      c.violation(std::string("offset:not-monotone-in-delta:") + jtName(q1.jt),
+      c.violation((o1.collapse || o2.collapse) ? std::string("offset:concave-join-collapse:not-monotone") : std::string("offset:not-monotone-in-delta:") + jtName(q1.jt),
                   vh::J().s("how", how).raw("point", g2::ptJson(p)).raw("params_small", paramsJson(q1, o1)).raw("params_large", paramsJson(q2, o2))
                       .raw("input", g2::polyJson(in.polys, 300)).raw("result_small", g2::polyJson(o1.polys, 200)).raw("result_large", g2::polyJson(o2.polys, 200)).str());
       return false;
